@@ -106,6 +106,19 @@ def same(w, a, b):
     return _close(a, b)
 
 
+def native_guard(w):
+    """
+    Native replay of a path model only: paths through the 1e-16 clamp of LLE.__call__ have models whose leaves span 16+
+    orders of magnitude, where IEEE doubles are not reals (A-real) and the replay says nothing.  Such a replay is marked
+    'skipped' (counted by the engine as cross_checks_skipped_rounding), never as passed.  No effect on the symbolic run.
+    """
+    if w.symbolic:
+        return
+    vals = [abs(float(v)) for n, v in w.leaves.items() if n.startswith(('f.', 'sol')) and float(v) != 0.]   # flows and solver answers
+    if vals and (max(vals) > 1e9 * min(vals)):
+        w.assume(False)
+
+
 def flows_now(s):
     """{(phase, ID): value} for every phase and chemical, read from the raw sparse dicts."""
     IDs = s.chemicals.IDs
@@ -392,6 +405,7 @@ def lle_call(w, cfg):
         else:
             w.canary('canary: L stays empty', w.eq(w_total([now['L', ID] for ID in IDs]), 0.))
         w.note(solver_calls=stub.calls, flows=now)
+        native_guard(w)
     finally:
         env.restore()
 
@@ -447,6 +461,7 @@ def lle_scaling(w, cfg):
         key = ('L', IDs[0])
         w.canary('canary: k*feed gives the flows of feed', w.eq(now_b[key], now_a[key] + 1))
         w.note(solver_calls=stub.calls, distinct_problems=len(stub.memo))
+        native_guard(w)
     finally:
         env.restore()
 
